@@ -1,4 +1,4 @@
 Require Import ExtrOcamlBasic.
 From Eupsv Require Import Base.Base Model.VersionCompare Model.VersionKey.
 Extraction "model.ml" keep_types version_cmp version_cmp_strict version_cmp_pinned version_cmp_strict_pinned
-  split_version cmp_primaries version_match tokenize items latest conv key key_compare.
+  split_version cmp_primaries version_match tokenize items latest conv key key_compare accepts.
